@@ -967,3 +967,293 @@ fn h_enc_seek_total() {
     core::mem::forget(r);
     core::mem::forget(l);
 }
+
+// ------------------------------------------------------------------------------------------
+// H-ENC-W-*: one real EncryptionLayerWriter::write / finalize from a symbolic writer state
+// (C01 chunk roll-over, C06 one GCM message per chunk + tag placement + counter, C07 every byte
+//  goes through the cipher) — scaled build: chunk 4 bytes, cipher buffer 3 bytes
+// ------------------------------------------------------------------------------------------
+fn mk_writer(off: u64, ctr: u32, key: Key, prefix: [u8; NONCE_SIZE], pending: [u8; 4]) -> EncryptionLayerWriter<'static, Rec> {
+    // cipher state of a chunk in which `off` bytes were already encrypted
+    let cipher = crate::crypto::aesgcm::verif_aesgcm::model_build_at(&key, &build_nonce(prefix, ctr), off, pending);
+    let inner: InnerWriterType<'static, Rec> = Box::new(Rec::new());
+    EncryptionLayerWriter { inner, cipher, key, nonce_prefix: prefix, current_chunk_offset: off, current_ctr: ctr }
+}
+/// the writer's sink is behind a trait object: observe it through ghost statics
+static mut W_SINK: *const Rec = core::ptr::null();
+
+//@ props: C01 C06 C07
+//@ scaled: yes
+//@ functions: <layers::encrypt::EncryptionLayerWriter<W> as std::io::Write>::write; build_nonce; AesGcm256::encrypt over model primitives
+//@ bounds: SCALED build (chunk 4, cipher buffer 3); CONCRETE chunk offset 0 and buffer length 0 (one of 11 enumerated size pairs); symbolic data bytes, key, nonce prefix, chunk counter < 2^32-1, pending GHASH bytes
+//@ stubs: AesGcm256::new -> same struct via model constructors; std::io::copy -> single read + write_all; alloc::fmt::format; From<mla::Error> for io::Error; model aes/ctr/ghash
+//@ outside: other (offset, length) pairs at the scaled constants; production buffer sizes (same code, constants differ)
+//@ replay: verif_replay_encrypt::enc_writer off=0 blen=0 ctr:u32
+#[kani::proof]
+#[kani::unwind(8)]
+#[kani::stub(alloc::fmt::format, nofmt)]
+#[kani::stub(<std::io::Error as std::convert::From<crate::errors::Error>>::from, cheap_from)]
+#[kani::stub(crate::crypto::aesgcm::AesGcm256::new, stub_gcm_new)]
+#[kani::stub(std::io::copy, copy_small_enc)]
+fn h_enc_w_0_0() {
+    writer_step_body(0, 0);
+}
+
+//@ props: C01 C06 C07
+//@ scaled: yes
+//@ functions: <layers::encrypt::EncryptionLayerWriter<W> as std::io::Write>::write; build_nonce; AesGcm256::encrypt over model primitives
+//@ bounds: SCALED build (chunk 4, cipher buffer 3); CONCRETE chunk offset 0 and buffer length 1 (one of 11 enumerated size pairs); symbolic data bytes, key, nonce prefix, chunk counter < 2^32-1, pending GHASH bytes
+//@ stubs: AesGcm256::new -> same struct via model constructors; std::io::copy -> single read + write_all; alloc::fmt::format; From<mla::Error> for io::Error; model aes/ctr/ghash
+//@ outside: other (offset, length) pairs at the scaled constants; production buffer sizes (same code, constants differ)
+//@ replay: verif_replay_encrypt::enc_writer off=0 blen=1 ctr:u32
+#[kani::proof]
+#[kani::unwind(8)]
+#[kani::stub(alloc::fmt::format, nofmt)]
+#[kani::stub(<std::io::Error as std::convert::From<crate::errors::Error>>::from, cheap_from)]
+#[kani::stub(crate::crypto::aesgcm::AesGcm256::new, stub_gcm_new)]
+#[kani::stub(std::io::copy, copy_small_enc)]
+fn h_enc_w_0_1() {
+    writer_step_body(0, 1);
+}
+
+//@ props: C01 C06 C07
+//@ scaled: yes
+//@ functions: <layers::encrypt::EncryptionLayerWriter<W> as std::io::Write>::write; build_nonce; AesGcm256::encrypt over model primitives
+//@ bounds: SCALED build (chunk 4, cipher buffer 3); CONCRETE chunk offset 0 and buffer length 3 (one of 11 enumerated size pairs); symbolic data bytes, key, nonce prefix, chunk counter < 2^32-1, pending GHASH bytes
+//@ stubs: AesGcm256::new -> same struct via model constructors; std::io::copy -> single read + write_all; alloc::fmt::format; From<mla::Error> for io::Error; model aes/ctr/ghash
+//@ outside: other (offset, length) pairs at the scaled constants; production buffer sizes (same code, constants differ)
+//@ replay: verif_replay_encrypt::enc_writer off=0 blen=3 ctr:u32
+#[kani::proof]
+#[kani::unwind(8)]
+#[kani::stub(alloc::fmt::format, nofmt)]
+#[kani::stub(<std::io::Error as std::convert::From<crate::errors::Error>>::from, cheap_from)]
+#[kani::stub(crate::crypto::aesgcm::AesGcm256::new, stub_gcm_new)]
+#[kani::stub(std::io::copy, copy_small_enc)]
+fn h_enc_w_0_3() {
+    writer_step_body(0, 3);
+}
+
+//@ props: C01 C06 C07
+//@ scaled: yes
+//@ functions: <layers::encrypt::EncryptionLayerWriter<W> as std::io::Write>::write; build_nonce; AesGcm256::encrypt over model primitives
+//@ bounds: SCALED build (chunk 4, cipher buffer 3); CONCRETE chunk offset 0 and buffer length 6 (one of 11 enumerated size pairs); symbolic data bytes, key, nonce prefix, chunk counter < 2^32-1, pending GHASH bytes
+//@ stubs: AesGcm256::new -> same struct via model constructors; std::io::copy -> single read + write_all; alloc::fmt::format; From<mla::Error> for io::Error; model aes/ctr/ghash
+//@ outside: other (offset, length) pairs at the scaled constants; production buffer sizes (same code, constants differ)
+//@ replay: verif_replay_encrypt::enc_writer off=0 blen=6 ctr:u32
+#[kani::proof]
+#[kani::unwind(8)]
+#[kani::stub(alloc::fmt::format, nofmt)]
+#[kani::stub(<std::io::Error as std::convert::From<crate::errors::Error>>::from, cheap_from)]
+#[kani::stub(crate::crypto::aesgcm::AesGcm256::new, stub_gcm_new)]
+#[kani::stub(std::io::copy, copy_small_enc)]
+fn h_enc_w_0_6() {
+    writer_step_body(0, 6);
+}
+
+//@ props: C01 C06 C07
+//@ scaled: yes
+//@ functions: <layers::encrypt::EncryptionLayerWriter<W> as std::io::Write>::write; build_nonce; AesGcm256::encrypt over model primitives
+//@ bounds: SCALED build (chunk 4, cipher buffer 3); CONCRETE chunk offset 2 and buffer length 1 (one of 11 enumerated size pairs); symbolic data bytes, key, nonce prefix, chunk counter < 2^32-1, pending GHASH bytes
+//@ stubs: AesGcm256::new -> same struct via model constructors; std::io::copy -> single read + write_all; alloc::fmt::format; From<mla::Error> for io::Error; model aes/ctr/ghash
+//@ outside: other (offset, length) pairs at the scaled constants; production buffer sizes (same code, constants differ)
+//@ replay: verif_replay_encrypt::enc_writer off=2 blen=1 ctr:u32
+#[kani::proof]
+#[kani::unwind(8)]
+#[kani::stub(alloc::fmt::format, nofmt)]
+#[kani::stub(<std::io::Error as std::convert::From<crate::errors::Error>>::from, cheap_from)]
+#[kani::stub(crate::crypto::aesgcm::AesGcm256::new, stub_gcm_new)]
+#[kani::stub(std::io::copy, copy_small_enc)]
+fn h_enc_w_2_1() {
+    writer_step_body(2, 1);
+}
+
+//@ props: C01 C06 C07
+//@ scaled: yes
+//@ functions: <layers::encrypt::EncryptionLayerWriter<W> as std::io::Write>::write; build_nonce; AesGcm256::encrypt over model primitives
+//@ bounds: SCALED build (chunk 4, cipher buffer 3); CONCRETE chunk offset 2 and buffer length 6 (one of 11 enumerated size pairs); symbolic data bytes, key, nonce prefix, chunk counter < 2^32-1, pending GHASH bytes
+//@ stubs: AesGcm256::new -> same struct via model constructors; std::io::copy -> single read + write_all; alloc::fmt::format; From<mla::Error> for io::Error; model aes/ctr/ghash
+//@ outside: other (offset, length) pairs at the scaled constants; production buffer sizes (same code, constants differ)
+//@ replay: verif_replay_encrypt::enc_writer off=2 blen=6 ctr:u32
+#[kani::proof]
+#[kani::unwind(8)]
+#[kani::stub(alloc::fmt::format, nofmt)]
+#[kani::stub(<std::io::Error as std::convert::From<crate::errors::Error>>::from, cheap_from)]
+#[kani::stub(crate::crypto::aesgcm::AesGcm256::new, stub_gcm_new)]
+#[kani::stub(std::io::copy, copy_small_enc)]
+fn h_enc_w_2_6() {
+    writer_step_body(2, 6);
+}
+
+//@ props: C01 C06 C07
+//@ scaled: yes
+//@ functions: <layers::encrypt::EncryptionLayerWriter<W> as std::io::Write>::write; build_nonce; AesGcm256::encrypt over model primitives
+//@ bounds: SCALED build (chunk 4, cipher buffer 3); CONCRETE chunk offset 3 and buffer length 1 (one of 11 enumerated size pairs); symbolic data bytes, key, nonce prefix, chunk counter < 2^32-1, pending GHASH bytes
+//@ stubs: AesGcm256::new -> same struct via model constructors; std::io::copy -> single read + write_all; alloc::fmt::format; From<mla::Error> for io::Error; model aes/ctr/ghash
+//@ outside: other (offset, length) pairs at the scaled constants; production buffer sizes (same code, constants differ)
+//@ replay: verif_replay_encrypt::enc_writer off=3 blen=1 ctr:u32
+#[kani::proof]
+#[kani::unwind(8)]
+#[kani::stub(alloc::fmt::format, nofmt)]
+#[kani::stub(<std::io::Error as std::convert::From<crate::errors::Error>>::from, cheap_from)]
+#[kani::stub(crate::crypto::aesgcm::AesGcm256::new, stub_gcm_new)]
+#[kani::stub(std::io::copy, copy_small_enc)]
+fn h_enc_w_3_1() {
+    writer_step_body(3, 1);
+}
+
+//@ props: C01 C06 C07
+//@ scaled: yes
+//@ functions: <layers::encrypt::EncryptionLayerWriter<W> as std::io::Write>::write; build_nonce; AesGcm256::encrypt over model primitives
+//@ bounds: SCALED build (chunk 4, cipher buffer 3); CONCRETE chunk offset 3 and buffer length 5 (one of 11 enumerated size pairs); symbolic data bytes, key, nonce prefix, chunk counter < 2^32-1, pending GHASH bytes
+//@ stubs: AesGcm256::new -> same struct via model constructors; std::io::copy -> single read + write_all; alloc::fmt::format; From<mla::Error> for io::Error; model aes/ctr/ghash
+//@ outside: other (offset, length) pairs at the scaled constants; production buffer sizes (same code, constants differ)
+//@ replay: verif_replay_encrypt::enc_writer off=3 blen=5 ctr:u32
+#[kani::proof]
+#[kani::unwind(8)]
+#[kani::stub(alloc::fmt::format, nofmt)]
+#[kani::stub(<std::io::Error as std::convert::From<crate::errors::Error>>::from, cheap_from)]
+#[kani::stub(crate::crypto::aesgcm::AesGcm256::new, stub_gcm_new)]
+#[kani::stub(std::io::copy, copy_small_enc)]
+fn h_enc_w_3_5() {
+    writer_step_body(3, 5);
+}
+
+//@ props: C01 C06 C07
+//@ scaled: yes
+//@ functions: <layers::encrypt::EncryptionLayerWriter<W> as std::io::Write>::write (roll-over arm); EncryptionLayerWriter::renew_cipher; AesGcm256::into_tag; build_nonce; AesGcm256::encrypt over model primitives
+//@ bounds: SCALED build (chunk 4, cipher buffer 3); CONCRETE chunk offset 4 (chunk full: roll-over due) and buffer length 0 (one of 11 enumerated size pairs); symbolic data bytes, key, nonce prefix, chunk counter < 2^32-1, pending GHASH bytes
+//@ stubs: AesGcm256::new -> same struct via model constructors; std::io::copy -> single read + write_all; alloc::fmt::format; From<mla::Error> for io::Error; model aes/ctr/ghash
+//@ outside: other (offset, length) pairs at the scaled constants; production buffer sizes (same code, constants differ)
+//@ replay: verif_replay_encrypt::enc_writer off=4 blen=0 ctr:u32
+#[kani::proof]
+#[kani::unwind(18)]
+#[kani::stub(alloc::fmt::format, nofmt)]
+#[kani::stub(<std::io::Error as std::convert::From<crate::errors::Error>>::from, cheap_from)]
+#[kani::stub(crate::crypto::aesgcm::AesGcm256::new, stub_gcm_new)]
+#[kani::stub(std::io::copy, copy_small_enc)]
+fn h_enc_w_4_0() {
+    writer_step_body(4, 0);
+}
+
+//@ props: C01 C06 C07
+//@ scaled: yes
+//@ functions: <layers::encrypt::EncryptionLayerWriter<W> as std::io::Write>::write (roll-over arm); EncryptionLayerWriter::renew_cipher; AesGcm256::into_tag; build_nonce; AesGcm256::encrypt over model primitives
+//@ bounds: SCALED build (chunk 4, cipher buffer 3); CONCRETE chunk offset 4 (chunk full: roll-over due) and buffer length 1 (one of 11 enumerated size pairs); symbolic data bytes, key, nonce prefix, chunk counter < 2^32-1, pending GHASH bytes
+//@ stubs: AesGcm256::new -> same struct via model constructors; std::io::copy -> single read + write_all; alloc::fmt::format; From<mla::Error> for io::Error; model aes/ctr/ghash
+//@ outside: other (offset, length) pairs at the scaled constants; production buffer sizes (same code, constants differ)
+//@ replay: verif_replay_encrypt::enc_writer off=4 blen=1 ctr:u32
+#[kani::proof]
+#[kani::unwind(18)]
+#[kani::stub(alloc::fmt::format, nofmt)]
+#[kani::stub(<std::io::Error as std::convert::From<crate::errors::Error>>::from, cheap_from)]
+#[kani::stub(crate::crypto::aesgcm::AesGcm256::new, stub_gcm_new)]
+#[kani::stub(std::io::copy, copy_small_enc)]
+fn h_enc_w_4_1() {
+    writer_step_body(4, 1);
+}
+
+//@ props: C01 C06 C07
+//@ scaled: yes
+//@ functions: <layers::encrypt::EncryptionLayerWriter<W> as std::io::Write>::write (roll-over arm); EncryptionLayerWriter::renew_cipher; AesGcm256::into_tag; build_nonce; AesGcm256::encrypt over model primitives
+//@ bounds: SCALED build (chunk 4, cipher buffer 3); CONCRETE chunk offset 4 (chunk full: roll-over due) and buffer length 6 (one of 11 enumerated size pairs); symbolic data bytes, key, nonce prefix, chunk counter < 2^32-1, pending GHASH bytes
+//@ stubs: AesGcm256::new -> same struct via model constructors; std::io::copy -> single read + write_all; alloc::fmt::format; From<mla::Error> for io::Error; model aes/ctr/ghash
+//@ outside: other (offset, length) pairs at the scaled constants; production buffer sizes (same code, constants differ)
+//@ replay: verif_replay_encrypt::enc_writer off=4 blen=6 ctr:u32
+#[kani::proof]
+#[kani::unwind(18)]
+#[kani::stub(alloc::fmt::format, nofmt)]
+#[kani::stub(<std::io::Error as std::convert::From<crate::errors::Error>>::from, cheap_from)]
+#[kani::stub(crate::crypto::aesgcm::AesGcm256::new, stub_gcm_new)]
+#[kani::stub(std::io::copy, copy_small_enc)]
+fn h_enc_w_4_6() {
+    writer_step_body(4, 6);
+}
+
+fn writer_step_body(off: u64, blen: usize) {
+    let ctr: u32 = kani::any();
+    kani::assume(off <= SPEC_CHUNK && ctr < u32::MAX);
+    let key: Key = [kani::any(); 32];
+    let prefix: [u8; NONCE_SIZE] = kani::any();
+    let data: [u8; 6] = kani::any();
+    let mut w = mk_writer(off, ctr, key, prefix, kani::any());
+    kani::cover!(ctr > 0, "later chunk");
+    kani::cover!(ctr == 0, "first chunk");
+    let r = w.write(&data[..blen]);
+    let rolled = off == SPEC_CHUNK;
+    let off1 = if rolled { 0 } else { off };
+    let want_n = core::cmp::min(core::cmp::min(3, blen as u64), SPEC_CHUNK - off1);
+    match r {
+        Ok(n) => {
+            assert!(n as u64 == want_n, "write accepts min(cipher buffer, buffer, rest of the chunk)");
+            assert!(w.current_chunk_offset == off1 + want_n, "chunk offset advances by the bytes accepted");
+            assert!(w.current_ctr == ctr + rolled as u32, "one counter per chunk: incremented exactly at roll-over");
+            // what reached the sink
+            let sink: &Rec = unsafe { &*(&*w.inner as *const dyn LayerWriter<'static, Rec> as *const Rec) };
+            let tag_len: u64 = if rolled { 16 } else { 0 };
+            assert!(sink.n == tag_len + want_n, "sink receives the tag of the finished chunk (16 bytes) then exactly the accepted bytes");
+            // every forwarded data byte is plaintext XOR keystream(key, nonce || ctr', 16 + offset)
+            let c_ref = model_build(&key, &build_nonce(prefix, ctr + rolled as u32));
+            let mut i = 0usize;
+            while i < 3 {
+                if (i as u64) < want_n {
+                    let ks = crate::crypto::aesgcm::verif_aesgcm::ks_at(&c_ref, 16 + off1 + i as u64);
+                    assert!(sink.first[tag_len as usize + i] == data[i] ^ ks, "byte forwarded = plaintext XOR keystream of (key, archive nonce || BE32(chunk index), position)");
+                }
+                i += 1;
+            }
+            core::mem::forget(c_ref);
+        }
+        Err(e) => {
+            core::mem::forget(e);
+            assert!(false, "write on a healthy sink fails");
+        }
+    }
+    core::mem::forget(w);
+}
+
+/// stand-in for `std::io::copy` in the writer: one read of <= 8 bytes, then write_all
+fn copy_small_enc<R: Read + ?Sized, W: Write + ?Sized>(r: &mut R, w: &mut W) -> io::Result<u64> {
+    let mut tmp = [0u8; 8];
+    let n = r.read(&mut tmp)?;
+    w.write_all(&tmp[..n])?;
+    Ok(n as u64)
+}
+
+//@ props: C01 C06
+//@ scaled: yes
+//@ functions: <layers::encrypt::EncryptionLayerWriter<W> as layers::traits::LayerWriter>::finalize; renew_cipher; AesGcm256::into_tag
+//@ bounds: SCALED build; chunk offset 0..=4, any counter < 2^32-1
+//@ stubs: alloc::fmt::format; From<mla::Error> for io::Error; model aes/ctr/ghash
+//@ outside: -
+//@ replay: verif_replay_encrypt::enc_writer off:u64 ctr:u32
+#[kani::proof]
+#[kani::unwind(18)]
+#[kani::stub(alloc::fmt::format, nofmt)]
+#[kani::stub(<std::io::Error as std::convert::From<crate::errors::Error>>::from, cheap_from)]
+#[kani::stub(crate::crypto::aesgcm::AesGcm256::new, stub_gcm_new)]
+fn h_enc_writer_finalize() {
+    let off: u64 = kani::any();
+    let ctr: u32 = kani::any();
+    kani::assume(off <= SPEC_CHUNK && ctr < u32::MAX);
+    let key: Key = [kani::any(); 32];
+    let prefix: [u8; NONCE_SIZE] = kani::any();
+    let pending: [u8; 4] = kani::any();
+    let mut w = mk_writer(off, ctr, key, prefix, pending);
+    kani::cover!(off == 0, "finalize right after a roll-over or on an empty stream");
+    kani::cover!(off == SPEC_CHUNK, "finalize on a full chunk: exactly one tag, no empty extra chunk");
+    let r = w.finalize();
+    let okk = r.is_ok();
+    core::mem::forget(r);
+    assert!(okk, "finalize on a healthy sink fails");
+    let sink: &Rec = unsafe { &*(&*w.inner as *const dyn LayerWriter<'static, Rec> as *const Rec) };
+    assert!(sink.n == 16, "finalize emits exactly the 16-byte tag of the open chunk");
+    assert!(w.current_ctr == ctr + 1 && w.current_chunk_offset == 0);
+    // the tag is the one of the chunk's own cipher (same key, nonce, counter, bytes)
+    let t_ref = crate::crypto::aesgcm::verif_aesgcm::model_build_at(&key, &build_nonce(prefix, ctr), off, pending).into_tag();
+    let mut j = 0;
+    while j < 16 {
+        assert!(sink.first[j] == t_ref[j], "the emitted tag authenticates this chunk under nonce || BE32(chunk index)");
+        j += 1;
+    }
+    core::mem::forget(w);
+}
